@@ -28,4 +28,13 @@ def instances():
                         unwind=26, unwindset=EMPTY_DECL_UNWIND, timeout=600, truncate_long=True,
                         bounds="output() of apps/main.cpp on a context whose output stream is a fresh file; returned value of kind %s, every payload (strings up to 3 bytes); number rendering (to_string / %%.16g) cut: a fixed token per kind" % nm,
                         inputs="payload of the returned value"))
+    PT = CORE_TUS + ["blocc/statement_print.cpp", "blocc/statement_put.cpp"]
+    KN = {"n": "K_NOTYPE", "b": "K_BOOLEAN", "i": "K_INTEGER", "d": "K_NUMERIC", "s": "K_LITERAL"}
+    for stmt, eol in (("PRINTStatement", 1), ("PUTStatement", 0)):
+        for k0, k1, q in (("i", "s", True), ("s", "b", True), ("d", "n", True), ("I", "s", True), ("s", "S", False), ("b", "i", False), ("s", "s", False), ("n", "D", False)):
+            out.append(Inst(id="c19.%s.%s%s" % ("print" if eol else "put", k0, k1), props=["C19", "C05", "C01"], harness="h_print.cpp", entry="c19_print", tus=PT,
+                            defs=["VX_K0=%s" % KN[k0.lower()], "VX_K1=%s" % KN[k1.lower()], "VX_N0=%d" % k0.isupper(), "VX_N1=%d" % k1.isupper(), "VX_STMT=%s" % stmt, "VX_EOL=%d" % eol], stubs=FMT_STUBS + RSTUBS + CONTAINER_STUBS,
+                            unwind=26, unwindset=EMPTY_DECL_UNWIND, timeout=600, truncate_long=True, tier="experimental" if eol else ("quick" if q else "thorough"), quick_also=[],      # print: symbolic execution explores the byte-dump branches and does not finish
+                            bounds="%s::doit with two arguments of kinds %s, %s (upper case: typed null; n: untyped null) on a context whose output is a fresh file; strings <= 2 bytes; number rendering cut (fixed token per kind)" % (stmt, k0, k1),
+                            inputs="payloads, lvalue flags"))
     return out
